@@ -55,7 +55,7 @@ func runC09(r *rt.Run) {
 		kinds[fmt.Sprintf("%T", o.O)]++
 	}
 	r.Bounds["pool_kinds"] = kinds
-	r.Rule = "every ordered pair of a pool of all 12 kinds (lattice points as Point/SimplePoint/Feature, all rectangles and their 5-point polygons, all 2-position and a slice of 3-position lines, simple rings <= 4, polygons with holes, empties, Multi*/GeometryCollection/FeatureCollection/Feature wraps incl. nested, circles with radii around one lattice step): duality, symmetry, contains => intersects and rect cover, intersects => rects meet, reflexivity, and transparency of Feature / Rect / SimplePoint / leaf-vs-geometry level; plus big objects: zigzag LineStrings and Polygons with 33..65538 segments (either side of the index thresholds and of the 1/2/4-byte segment-number boundaries) under QuadTree / RTree / no index x 10 probe objects at each of ~25 first / last / boundary-numbered segments: the same laws, independence of the index kind, exact point membership; non-trivial = rectangles of the two objects meet"
+	r.Rule = "every ordered pair of a pool of all 12 kinds (lattice points as Point/SimplePoint/Feature, all rectangles and their 5-point polygons, all 2-position and a slice of 3-position lines, simple rings <= 4, polygons with holes, empties, Multi*/GeometryCollection/FeatureCollection/Feature wraps incl. nested, circles with radii around one lattice step): duality, symmetry, contains => intersects and rect cover, intersects => rects meet, reflexivity, and transparency of Feature / Rect / SimplePoint / leaf-vs-geometry level; plus big objects: zigzag LineStrings and Polygons with 33..65538 segments (either side of the index thresholds and of the 1/2/4-byte segment-number boundaries) under QuadTree / RTree / no index x 10 probe objects at each of ~25 first / last / boundary-numbered segments: the same laws, independence of the index kind, exact point membership; and the same zigzags (33..4,097 segments) translated through Move by 4 offsets (inexact in binary, and beyond the own extent) probed at their own positions; non-trivial = rectangles of the two objects meet"
 	r.Assume = []string{"laws are checked on the real answers only (no geometry oracle); a violated law whose exact pair is listed as a consequence of a listed leaf defect is a known finding"}
 	r.Describe = func(cur any) (rt.Case, bool) {
 		c, ok := cur.(*objCur)
@@ -156,6 +156,7 @@ func runC09(r *rt.Run) {
 		}
 	})
 	c09Big(r)
+	c09BigMoved(r)
 	r.Sample(objCase("duality", pool.objs[3], pool.objs[n/2]))
 	r.Sample(objCase("transparency-receiver", pool.objs[1], pool.objs[n-3]))
 }
@@ -163,6 +164,9 @@ func runC09(r *rt.Run) {
 func evalC09(c *rt.Case) (bool, string, string, error) {
 	if c.Kind == "bigobj" {
 		return evalC09Big(c)
+	}
+	if c.Kind == "bigmoved" {
+		return evalC09BigMoved(c)
 	}
 	if c.Kind != "objpair" {
 		return false, "", "", fmt.Errorf("not mine")
